@@ -752,6 +752,11 @@ def tasks_for(tier):
         tasks.append(('reject %s' % nm, cyc_task, {'net': nm}))
     tasks.append(('deep chain 1100', deep_chain_task, {'n': 1100}))
     tasks.append(('deep chain 900', deep_chain_task, {'n': 900}))
+    # a run cancelled from inside an edge (Simulator.stop() in a clock() method): when clk() returns, the netlist must sit at its
+    # fixpoint all the same - the post-edge state is compared, wire by wire, with the one of clk(1) (task shared with C05)
+    from .c05 import stop_task
+    for dname in ('counter-edge-reg', 'reg-fsm-reg', 'reset-chain'):
+        tasks.append(('stop() from inside an edge: %s' % dname, stop_task, {'build': D.DESIGNS[dname], 'n': 3}))
     return tasks
 
 
